@@ -2,14 +2,21 @@
 (* Design-level model of AdbStreamTransport._read_messages_until_true for two
    threads sharing one stream (a reader R waiting for data, a writer W waiting
    for its OKAY).  FIXED = FALSE is the code as pinned (notify, then release the
-   reader lock in `finally`); FIXED = TRUE releases first and then notifies. *)
+   reader lock in `finally`); FIXED = TRUE releases first and then notifies.
+
+   TIMEOUTS = TRUE: the writer's acknowledgement never comes and the reader's
+   data arrives late (process Dev).  The writer may then give up while it holds
+   the reader role (its read of the transport times out): it must still release
+   the lock AND notify, or the reader - already waiting on the condition - is
+   never woken although nobody reads any more (NOTIFYEXIT = FALSE: the
+   notification only after a handled message; TLC finds the lost wake-up). *)
 EXTENDS Naturals, Sequences, FiniteSets, TLC
-CONSTANT FIXED, FIXALL
+CONSTANT FIXED, FIXALL, TIMEOUTS, NOTIFYEXIT
 Threads == {"R", "W"}
 
 (* --algorithm ReadUntil
 variables readerLock = "free", condLock = "free", waiting = {},
-          inbox = <<"R", "W">>,        \* device sends R's data, then W's OKAY
+          inbox = IF TIMEOUTS THEN <<>> ELSE <<"R", "W">>,   \* device sends R's data, then W's OKAY
           got = [t \in Threads |-> FALSE];
 
 define
@@ -30,9 +37,20 @@ ntfE2:          waiting := {}; condLock := "free";
               end if;
 gol:          goto loop;
             end if;
-rd:         await inbox # <<>>;                              \* read_for_stream (blocks)
-            got[Head(inbox)] := TRUE || inbox := Tail(inbox);  \* _handle_message
-            if FIXED then
+rd:         either
+              await inbox # <<>>;                            \* read_for_stream (blocks)
+              got[Head(inbox)] := TRUE || inbox := Tail(inbox);  \* _handle_message
+            or
+              await TIMEOUTS /\ self = "W" /\ inbox = <<>>;   \* the transport read times out: the exception
+              readerLock := "free";                          \* leaves through `finally`
+              got[self] := TRUE;                             \* (the writer is done: it raises to its caller)
+              if NOTIFYEXIT then
+ntfX1:          await condLock = "free"; condLock := self;
+ntfX2:          waiting := {}; condLock := "free";
+              end if;
+gox:          goto loop;
+            end either;
+hm:         if FIXED then
 relF:         readerLock := "free";
 ntfF1:        await condLock = "free"; condLock := self;
 ntfF2:        waiting := {}; condLock := "free";
@@ -48,8 +66,13 @@ w3:         condLock := "free";                              \* finally: release
           end if;
         end while;
 end process;
+
+fair process Dev = "dev"
+begin
+d0:   if TIMEOUTS then inbox := Append(inbox, "R"); end if;     \* at any time: also after the writer gave up
+end process;
 end algorithm; *)
-\* BEGIN TRANSLATION (chksum(pcal) = "5787aa35" /\ chksum(tla) = "b3352290")
+\* BEGIN TRANSLATION
 VARIABLES pc, readerLock, condLock, waiting, inbox, got
 
 (* define statement *)
@@ -58,15 +81,16 @@ Done(t) == pc[t] = "Done"
 
 vars == << pc, readerLock, condLock, waiting, inbox, got >>
 
-ProcSet == (Threads)
+ProcSet == (Threads) \cup {"dev"}
 
 Init == (* Global variables *)
         /\ readerLock = "free"
         /\ condLock = "free"
         /\ waiting = {}
-        /\ inbox = <<"R", "W">>
+        /\ inbox = IF TIMEOUTS THEN <<>> ELSE <<"R", "W">>
         /\ got = [t \in Threads |-> FALSE]
-        /\ pc = [self \in ProcSet |-> "loop"]
+        /\ pc = [self \in ProcSet |-> CASE self \in Threads -> "loop"
+                                        [] self = "dev" -> "d0"]
 
 loop(self) == /\ pc[self] = "loop"
               /\ IF ~got[self]
@@ -116,13 +140,41 @@ ntfE2(self) == /\ pc[self] = "ntfE2"
                /\ UNCHANGED << readerLock, inbox, got >>
 
 rd(self) == /\ pc[self] = "rd"
-            /\ inbox # <<>>
-            /\ /\ got' = [got EXCEPT ![Head(inbox)] = TRUE]
-               /\ inbox' = Tail(inbox)
+            /\ \/ /\ inbox # <<>>
+                  /\ /\ got' = [got EXCEPT ![Head(inbox)] = TRUE]
+                     /\ inbox' = Tail(inbox)
+                  /\ pc' = [pc EXCEPT ![self] = "hm"]
+                  /\ UNCHANGED readerLock
+               \/ /\ TIMEOUTS /\ self = "W" /\ inbox = <<>>
+                  /\ readerLock' = "free"
+                  /\ got' = [got EXCEPT ![self] = TRUE]
+                  /\ IF NOTIFYEXIT
+                        THEN /\ pc' = [pc EXCEPT ![self] = "ntfX1"]
+                        ELSE /\ pc' = [pc EXCEPT ![self] = "gox"]
+                  /\ inbox' = inbox
+            /\ UNCHANGED << condLock, waiting >>
+
+ntfX1(self) == /\ pc[self] = "ntfX1"
+               /\ condLock = "free"
+               /\ condLock' = self
+               /\ pc' = [pc EXCEPT ![self] = "ntfX2"]
+               /\ UNCHANGED << readerLock, waiting, inbox, got >>
+
+ntfX2(self) == /\ pc[self] = "ntfX2"
+               /\ waiting' = {}
+               /\ condLock' = "free"
+               /\ pc' = [pc EXCEPT ![self] = "gox"]
+               /\ UNCHANGED << readerLock, inbox, got >>
+
+gox(self) == /\ pc[self] = "gox"
+             /\ pc' = [pc EXCEPT ![self] = "loop"]
+             /\ UNCHANGED << readerLock, condLock, waiting, inbox, got >>
+
+hm(self) == /\ pc[self] = "hm"
             /\ IF FIXED
                   THEN /\ pc' = [pc EXCEPT ![self] = "relF"]
                   ELSE /\ pc' = [pc EXCEPT ![self] = "ntf1"]
-            /\ UNCHANGED << readerLock, condLock, waiting >>
+            /\ UNCHANGED << readerLock, condLock, waiting, inbox, got >>
 
 relF(self) == /\ pc[self] = "relF"
               /\ readerLock' = "free"
@@ -176,19 +228,32 @@ w3(self) == /\ pc[self] = "w3"
             /\ UNCHANGED << readerLock, waiting, inbox, got >>
 
 T(self) == loop(self) \/ acqc(self) \/ try(self) \/ chk(self) \/ gol(self)
-              \/ ntfE1(self) \/ ntfE2(self) \/ rd(self) \/ relF(self)
+              \/ ntfE1(self) \/ ntfE2(self) \/ rd(self) \/ ntfX1(self)
+              \/ ntfX2(self) \/ gox(self) \/ hm(self) \/ relF(self)
               \/ ntfF1(self) \/ ntfF2(self) \/ ntf1(self) \/ ntf2(self)
               \/ rel(self) \/ w1(self) \/ w2(self) \/ w3(self)
+
+d0 == /\ pc["dev"] = "d0"
+      /\ IF TIMEOUTS
+            THEN /\ inbox' = Append(inbox, "R")
+            ELSE /\ TRUE
+                 /\ inbox' = inbox
+      /\ pc' = [pc EXCEPT !["dev"] = "Done"]
+      /\ UNCHANGED << readerLock, condLock, waiting, got >>
+
+Dev == d0
 
 (* Allow infinite stuttering to prevent deadlock on termination. *)
 Terminating == /\ \A self \in ProcSet: pc[self] = "Done"
                /\ UNCHANGED vars
 
-Next == (\E self \in Threads: T(self))
+Next == Dev
+           \/ (\E self \in Threads: T(self))
            \/ Terminating
 
 Spec == /\ Init /\ [][Next]_vars
         /\ \A self \in Threads : WF_vars(T(self))
+        /\ WF_vars(Dev)
 
 Termination == <>(\A self \in ProcSet: pc[self] = "Done")
 
